@@ -995,6 +995,31 @@ func (w *recWriter) Write(p []byte) (int, error) {
 	return len(p), nil
 }
 
+// hostKey is what "one distinct host" (endpoint) means for each result type, taken from the
+// result's fields and NOT from ID(): the specification side of de-duplication.
+func hostKey(x scan.Result) string {
+	switch v := x.(type) {
+	case *arp.ScanResult:
+		return "arp|" + v.IP
+	case *icmp.ScanResult:
+		return "icmp|" + v.IP
+	case *tcp.ScanResult:
+		return "tcp|" + v.IP + "|" + strconv.Itoa(int(v.Port))
+	case *socks5.ScanResult:
+		return "socks|" + v.IP + "|" + strconv.Itoa(int(v.Port))
+	case *elastic.ScanResult:
+		return "elastic|" + v.Host
+	case *docker.ScanResult:
+		return "docker|" + v.Host
+	}
+	return "?"
+}
+
+func isNilICMP(g genRes) bool {
+	x, ok := g.real.(*icmp.ScanResult)
+	return ok && x.ICMP == nil
+}
+
 func smallResult(r *hlib.SplitMix64, pool int) genRes {
 	kind := []int{0, 0, 1, 2, 3, 4}[r.Intn(6)]
 	g := genResult(r, kind, false)
@@ -1039,7 +1064,12 @@ func logCase(r *hlib.SplitMix64, gen string) row {
 		upto = stop
 	}
 	for i := 0; i < upto; i++ {
-		ch <- gs[i].real
+		select {
+		case ch <- gs[i].real:
+		case <-time.After(5 * time.Second):
+			cancel()
+			return row{T: "log", Gen: gen, Class: class, Spec: fmt.Sprintf("LogResults stops taking results after %d of %d", i, upto)}
+		}
 	}
 	if stop >= 0 {
 		cancel()
@@ -1114,13 +1144,21 @@ func (s *sinkLogger) LogResults(ctx context.Context, results <-chan scan.Result)
 	}
 }
 
+// set when the cancel-while-offering scenario could not be staged (the implementation passes on a
+// different number of results than ID() predicts): the scenario is then no longer attempted
+var stagingBroken bool
+
 func uniqCase(r *hlib.SplitMix64, gen string) row {
 	n := 1 + r.Intn(14)
 	pool := 1 + r.Intn(5)
 	var base []genRes
 	for i := 0; i < pool; i++ {
 		kind := []int{0, 0, 0, 1, 2, 3}[r.Intn(6)]
-		base = append(base, genResult(r, kind, false))
+		g := genResult(r, kind, false)
+		for isNilICMP(g) { // the scanners never produce it, and String() of such a value panics
+			g = genResult(r, kind, false)
+		}
+		base = append(base, g)
 	}
 	var gs []genRes
 	for i := 0; i < n; i++ {
@@ -1155,7 +1193,7 @@ func uniqCase(r *hlib.SplitMix64, gen string) row {
 		}
 		gs = append(gs, g)
 	}
-	drop := r.Intn(4) == 0
+	drop := r.Intn(4) == 0 && !stagingBroken
 	class := "closed"
 	sink := &sinkLogger{limit: -1, paused: make(chan struct{}), resume: make(chan struct{}), finised: make(chan struct{})}
 	capIn := r.Intn(4)
@@ -1179,19 +1217,51 @@ func uniqCase(r *hlib.SplitMix64, gen string) row {
 	defer cancel()
 	in := make(chan scan.Result, capIn)
 	go ul.LogResults(ctx, in)
+	// every blocking step is bounded: a changed implementation must not hang the driver
+	offer := func(x scan.Result) bool {
+		select {
+		case in <- x:
+			return true
+		case <-time.After(3 * time.Second):
+			return false
+		}
+	}
+	stuck := func(what string) row {
+		cancel()
+		select {
+		case <-sink.resume:
+		default:
+			close(sink.resume)
+		}
+		if drop {
+			stagingBroken = true
+			return row{T: "skip", Gen: gen, Class: "staging-failed", Spec: ""}
+		}
+		return row{T: "uniq", Gen: gen, Class: class, Spec: what}
+	}
 	if drop {
 		for _, g := range gs[:n-1] {
-			in <- g.real
+			if !offer(g.real) {
+				return stuck("")
+			}
 		}
-		<-sink.paused
-		in <- gs[n-1].real // taken by the de-duplicating goroutine (unbuffered)
+		select {
+		case <-sink.paused:
+		case <-time.After(3 * time.Second):
+			return stuck("")
+		}
+		if !offer(gs[n-1].real) { // taken by the de-duplicating goroutine (unbuffered)
+			return stuck("")
+		}
 		time.Sleep(2 * time.Millisecond)
 		cancel()
 		time.Sleep(20 * time.Millisecond)
 		close(sink.resume)
 	} else {
-		for _, g := range gs {
-			in <- g.real
+		for i, g := range gs {
+			if !offer(g.real) {
+				return stuck(fmt.Sprintf("the unique logger stops taking results after %d of %d", i, n))
+			}
 		}
 		close(in)
 	}
@@ -1230,8 +1300,8 @@ func uniqCase(r *hlib.SplitMix64, gen string) row {
 		seen := map[string]bool{}
 		var want []int
 		for i, g := range gs {
-			if !seen[g.real.ID()] {
-				seen[g.real.ID()] = true
+			if !seen[hostKey(g.real)] {
+				seen[hostKey(g.real)] = true
 				want = append(want, i)
 			}
 		}
